@@ -95,13 +95,32 @@ def _docs(f):
 
 
 def replay_docs(w):
-    f = parserh.parse_source_text("\n".join(w["program"]) + "\n")
+    f = parserh.parse_source_text("\n".join(w["program"]) + "\n", **(w.get("marks") or {}))
     got, n = _docs(f)
     got = [[str(x) for x in d if str(x).strip()] for d in got]
     return got != w["expected"], {"program": w["program"], "ford_doc_lists": got, "documented_attachment": w["expected"]}
 
 
-def _docs_ob(name, use_second, use_before2, tiers=("quick", "thorough")):
+def _remark(table, marks):
+    """the same comment lines written with other documentation marks (docmark, predocmark, docmark_alt, predocmark_alt)"""
+    d, p, a, q = marks
+    out = []
+    for row in table:
+        t = row[0]
+        if isinstance(t, str):
+            t = t.replace("!!", "!" + d).replace("!>", "!" + p).replace("!*", "!" + a).replace("!|", "!" + q)
+        out.append((t,) + tuple(row[1:]))
+    return out
+
+
+DEFAULT_MARKS = ("!", ">", "*", "|")
+
+
+def _docs_ob(name, use_second, use_before2, tiers=("quick", "thorough"), marks=DEFAULT_MARKS):
+    AFTER_FIRST_, SECOND_LINE_, BEFORE_SECOND_, BEFORE_SECOND2_, AFTER_SECOND_, INLINE_ = (
+        _remark(t, marks) for t in (AFTER_FIRST, SECOND_LINE, BEFORE_SECOND, BEFORE_SECOND2, AFTER_SECOND, INLINE))
+    MARKSET = dict(docmark=marks[0], predocmark=marks[1], docmark_alt=marks[2], predocmark_alt=marks[3])
+
     @obligation("C03", f"O1.doc-attachment.{name}", engine="SX(CV)", timeout=3000, tiers=tiers)
     def ob(ctx):
         import ford.reader as rd
@@ -112,15 +131,15 @@ def _docs_ob(name, use_second, use_before2, tiers=("quick", "thorough")):
         ctx.encode_fn(sf.read_docstring)
         ctx.encode_fn(sf.line_to_variables)
         ctx.stubs.append("the reader's input stream is the list of symbolic physical lines (file I/O stubbed)")
-        ctx.bounds.update({"markers": "defaults (!! !> !* !|)", "comment lines between the two declarations": 2 + use_second + use_before2})
+        ctx.bounds.update({"markers": " ".join("!" + m for m in marks), "comment lines between the two declarations": 2 + use_second + use_before2})
 
         def h(E):
-            il = CV.choice(E, "inline", INLINE)
-            a1 = CV.choice(E, "a1", AFTER_FIRST)
-            a2 = CV.choice(E, "a2", SECOND_LINE) if use_second else (None, None, None)
-            b1 = CV.choice(E, "b1", BEFORE_SECOND)
-            b2 = CV.choice(E, "b2", BEFORE_SECOND2) if use_before2 else (None, None, None)
-            a3 = CV.choice(E, "a3", AFTER_SECOND)
+            il = CV.choice(E, "inline", INLINE_)
+            a1 = CV.choice(E, "a1", AFTER_FIRST_)
+            a2 = CV.choice(E, "a2", SECOND_LINE_) if use_second else (None, None, None)
+            b1 = CV.choice(E, "b1", BEFORE_SECOND_)
+            b2 = CV.choice(E, "b2", BEFORE_SECOND2_) if use_before2 else (None, None, None)
+            a3 = CV.choice(E, "a3", AFTER_SECOND_)
             slots = [a1, a2, b1, b2]
             # not covered by the documentation: a `!!` line directly continuing a `!|` block, or directly following a `!*` block line
             E.assume(choice.apply(lambda k1, k2: not (k1 == "altpre" and k2 == "doc"), b1[1], b2[1]))
@@ -136,11 +155,11 @@ def _docs_ob(name, use_second, use_before2, tiers=("quick", "thorough")):
             after_line = at if (pres if isinstance(pres, bool) else bool(pres)) else None
             prog = _program(il[0], lines, after_line)
             h.prog = prog
-            E.e.snapshot = lambda m: {"program": choice.value_in_model(m, prog),
+            E.e.snapshot = lambda m: {"program": choice.value_in_model(m, prog), "marks": MARKSET,
                                       "expected": choice.value_in_model(m, h.want) if getattr(h, "want", None) is not None else None}
             h.want = None
             try:
-                f = parserh.parse_source_lines(prog, docmark="!", predocmark=">", docmark_alt="*", predocmark_alt="|")
+                f = parserh.parse_source_lines(prog, **MARKSET)
             except ValueError as e:
                 E.reachable("error")
                 E.require(False, "valid source rejected: " + str(e)[:80])
@@ -177,6 +196,7 @@ def _docs_ob(name, use_second, use_before2, tiers=("quick", "thorough")):
 _docs_ob("two-lines", False, False)
 _docs_ob("three-lines", True, False)
 _docs_ob("four-lines", True, True, tiers=("thorough",))
+_docs_ob("two-lines.custom-marks", False, False, marks=("^", "<", "~", "#"))
 
 
 # ---------------------------------------------------------------------------------------
